@@ -9,6 +9,7 @@ import importlib, traceback
 h = importlib.import_module('harness.'+sys.argv[1])
 mods = shims.load_pyxab(); shims.install(mods)
 if hasattr(h,'setup'): h.setup(mods)
+from sx import ufmodel; ufmodel.install()
 verbose = '-v' in sys.argv
 args = [a for a in sys.argv if a != '-v']
 tier = args[4] if len(args)>4 else 'quick'
@@ -18,7 +19,7 @@ for cfg in h.configs(tier,0):
     if pat not in cfg['name']: continue
     fails = {}; unk=[0]
     def fn(E_):
-        cx = SymCtx(E); shims.set_ctx(cx); shims.rng_fresh()
+        cx = SymCtx(E); shims.set_ctx(cx); shims.rng_fresh(); ufmodel.reset()
         if verbose:
             orig = cx._exception
             def exc(label, ex, orig=orig): traceback.print_exc(); orig(label, ex)
